@@ -206,7 +206,7 @@ def abstractStep (s : AbsSt) (i : Instr) : AbsSt :=
   | .call f ps r =>
     let t := DTree.call f.name (ps.map s.res)
     ((s.bind r t).bind (r + 1) t).emit (.callS t)
-  | .ext tag r => (s.bind r (.ext tag)).emit (.extS tag)
+  | .ext tag _ r => (s.bind r (.ext tag)).emit (.extS tag)
   | .letBinding v x =>
     let t := s.res x
     let s := { s with decls := s.decls ++ [v.innerName] }
